@@ -5,6 +5,6 @@ patch="$1"; shift; [ "$1" = "--" ] && shift
 S=$(mktemp -d /tmp/scratch-XXXXXX)
 git -C /repo archive HEAD | tar -x -C "$S"
 ( cd "$S" && git init -q . 2>/dev/null; git -C "$S" apply --whitespace=nowarn "$patch" ) || { echo "patch failed"; rm -rf "$S"; exit 3; }
-VERIF_REPO="$S" "$@"; rc=$?
+VERIF_REPO="$S" VERIF_EVIDENCE_DIR="$S/evidence-scratch" "$@"; rc=$?
 rm -rf "$S"
 exit $rc
